@@ -18,7 +18,19 @@ def sp {α} [ToString α] (xs : List α) : String := "[" ++ " ".intercalate (xs.
 /- session 5: `Sink.Take` is an external function (what the Go method computes from what it is handed); `raw` values
    behave alike at every call site, a `once` value delivers its content at the first call that is executed: site 0 of
    `Store` for the names "a" "b" "c", the call inside `Take` otherwise -/
-def X : sample.Ext := ⟨fun s name m => s.Base + 1000 * name.length + 10 * ((m.Put 1 []).length + 1) + (m.Raw 1).length⟩
+/- session 7: `Ask` is an external function that is handed a closure — the state type, the step function and the
+   state — and returns the state it leaves: it folds the step function over the algorithms, as the Go function calls the
+   closure.  The digest external answers a digest of the algorithm's length (SHA-1 3: 20, SHA-256 5: 32, SHA-512 7: 64)
+   whose bytes are the number of bytes written: the Go side prints lengths only. -/
+def askExt (algs : List UInt64) (σ : Type) (step : σ → UInt64 → σ × List UInt8 × GoErr) (s : σ) : σ × Int × GoErr :=
+  algs.foldl (fun acc a =>
+    if acc.2.2.isSome then acc else
+      let r := step acc.1 a
+      if r.2.2.isSome then (r.1, acc.2.1, r.2.2) else (r.1, acc.2.1 * 31 + r.2.1.length, none)) (s, 0, none)
+def X : sample.Ext :=
+  { Sink_Take := fun s name m => s.Base + 1000 * name.length + 10 * ((m.Put 1 []).length + 1) + (m.Raw 1).length,
+    Ask := askExt,
+    crypto_Hash_Sum := fun alg w => List.replicate (if alg == 3 then 20 else if alg == 5 then 32 else 64) (UInt8.ofNat w.length) }
 def raw (p : List UInt8) : sample.Marsh := ⟨fun _ b => b ++ p, fun _ => p⟩
 def once (name : String) (p : List UInt8) : sample.Marsh :=
   ⟨fun k b => if k == 0 || !(name == "a" || name == "b" || name == "c") then b ++ p else b, fun _ => [1]⟩
@@ -37,3 +49,8 @@ def o : sample.Outer := ⟨⟨5⟩, ""⟩
   let r := sample.Box.Add b [6]
   let b := r.1
   IO.println s!"{e r.2} {b.Dir.VirtualAddress} {b.Dir.Size} {sp (sample.Box.All b)} {sample.Box.DrainCopy b} {sample.Box.DrainCopy b}"
+/- session 7: a local map and a counter captured and assigned by a closure that is handed to an external function inside
+   a loop and called directly; a closure without state -/
+#eval for rounds in [[], [[(5 : UInt64)]], [[5, 5, 3], [], [3, 7, 5]]] do
+  let r := sample.Memo X [1, 2, 3] rounds; IO.println s!"{r.1} {r.2.1} {e r.2.2}"
+#eval let r := sample.Plain X [4, 5] [3, 5]; IO.println s!"{r.1} {e r.2}"
